@@ -47,6 +47,7 @@ def _cotenants(rng, nmax):
 
 class C05(Base):
     ID = "C05"
+    EXPECTED_PROBES = ('helper_sweep_entries',)
     FORK_PER_RUN = True
     SIZES = {"quick": (80, 48), "thorough": (600, 128)}
     RULE = ("one binomial schedule per run (Multistage: both trajectories, "
@@ -190,6 +191,7 @@ class C05(Base):
 
 class C06(Base):
     ID = "C06"
+    EXPECTED_PROBES = ('helper_sweep_entries', 'tabulated_planner_ran', 'mixed_deps_checkpoint')
     FORK_PER_RUN = True
     SIZES = {"quick": (60, 0), "thorough": (250, 0)}
     RULE = ("a pair of Mixed schedules (storage RAM and DISK, same N and s) "
@@ -301,6 +303,7 @@ class C06(Base):
 
 class C07(Base):
     ID = "C07"
+    EXPECTED_PROBES = ('hrevolve_used_disk', 'disk_checkpoint_reread')
     BATCH = 4
     SIZES = {"quick": (48, 48), "thorough": (128, 128)}
     RULE = ("run-groups with equal (N, RAM units, cost vector): HRevolve for "
@@ -402,6 +405,7 @@ class C07(Base):
 
 class C13(Base):
     ID = "C13"
+    EXPECTED_PROBES = ('twolevel_partial_last_block', 'twolevel_two_binomial_checkpoints', 'second_pass_runs')
     SIZES = {"quick": (80, 0), "thorough": (400, 0)}
     WORLD_KW = {"keep_log": True}
     RULE = ("one TwoLevel schedule per run: period 1..N+2 (biased so that N "
@@ -531,6 +535,7 @@ def stack_positions(stream):
 
 class C14(Base):
     ID = "C14"
+    EXPECTED_PROBES = ('c14_allocation_matters',)
     BATCH = 8
     SIZES = {"quick": (48, 0), "thorough": (200, 0)}
     SMAX = {"quick": 10, "thorough": 24}
@@ -629,6 +634,7 @@ class C14(Base):
 
 class C16(Base):
     ID = "C16"
+    EXPECTED_PROBES = ('tabulated_planner_ran', 'c16_table_rows')
     FORK_PER_RUN = True
     SIZES = {"quick": (60, 0), "thorough": (200, 0)}
     TABLE = {"quick": 40, "thorough": 90}
@@ -721,6 +727,7 @@ class C16Driver:
 
 class C19(Base):
     ID = "C19"
+    EXPECTED_PROBES = ('c19_two_disk_checkpoints',)
     BATCH = 4
     SIZES = {"quick": (64, 64), "thorough": (160, 160)}
     CMAX = {"quick": 4, "thorough": 6}
